@@ -34,6 +34,8 @@ def shards(tier, seed):
         out.append({"name": f"random{i}", "kind": "random", "n": 2500 if tier == "quick" else 25000})
     for i in range(2 if tier == "quick" else 8):
         out.append({"name": f"big{i}", "kind": "big", "n": 25 if tier == "quick" else 200})
+    for i in range(2 if tier == "quick" else 6):
+        out.append({"name": f"node{i}", "kind": "node", "n": 120 if tier == "quick" else 1500})
     return out
 
 
@@ -345,7 +347,23 @@ def run_big(cx, spec, rng):
         check_wire(cx, wire, rng, sample=(i == 0))
 
 
-BODIES = {"header": run_header, "dispatch": run_dispatch, "register": run_register, "random": run_random,
+def run_node_workload(cx, spec, rng):
+    """Every frame the node parses and every message it encodes while serving scripted peers passes the
+    header / message contracts too (internal calls of the real functions)."""
+    from vf.checks import c07
+    run = c07.Run()
+    for s, b, script in c07.DIRECTED:
+        run.one(s, b, [(0, l) for l in script], 1)
+    for _ in range(spec["n"]):
+        nconn = rng.choice([1, 2])
+        script = [(rng.randrange(nconn), rng.choice(c07.LETTERS)) for _ in range(rng.randrange(2, 8))]
+        run.one(rng.choice(c07.STARTS), rng.choice(c07.BEHAVIOURS), script, nconn)
+    cx.evals += run.evals
+    cx.cov["node_histories_under_contract"] = run.evals
+    cx.hashes.update(run.hashes)
+
+
+BODIES = {"node": run_node_workload, "header": run_header, "dispatch": run_dispatch, "register": run_register, "random": run_random,
           "big": run_big}
 
 
